@@ -6,12 +6,14 @@ import (
 	"context"
 	"errors"
 	"fmt"
+	"os"
 	"runtime"
 	"sort"
 	"strings"
 	"sync"
 	"sync/atomic"
 	"testing"
+	"time"
 
 	"github.com/0chain/common/core/util"
 	"github.com/anishathalye/porcupine"
@@ -457,5 +459,240 @@ func TestRaceReadersOnMissingNodes(t *testing.T) {
 			rt.Fatalf("%s\ncontent %s removed %d nodes", failure, mptkit.Show(content), len(removed))
 		}
 		ev.Case(fmt.Sprint(mptkit.Show(content), removed, scripts), len(dw.Missing) > 0 && nr >= 2, "readers-on-missing-nodes", fmt.Sprintf("readers:%d", nr))
+	})
+}
+
+// A writer inserts a fixed sequence of distinct keys while readers take change-set snapshots, inspect what they got
+// after the call returned, and savers start SaveChanges with an already cancelled context (its worker keeps running
+// in the background on the collector's clone). Every snapshot must be one the sequential run of the same sequence
+// has seen: (root -> number of changes, number of deletes) from a reference run.
+func TestRaceChangeSetSnapshots(t *testing.T) {
+	ev.Rapid(t, 12, 200)
+	rapid.Check(t, func(rt *rapid.T) {
+		nkeys := gen.Uniform(rt, 60, 400, "nkeys")
+		nreaders := gen.Uniform(rt, 2, 6, "nreaders")
+		version := int64(gen.Uniform(rt, 0, 2, "version"))
+		keyOf := func(i int) string { return fmt.Sprintf("%02x%02x%02x", (i*7)%256, (i*13)%256, i%256) }
+		valOf := func(i, round int) []byte { return []byte{byte(i), byte(i >> 8), byte(round), 0x3a} }
+		// the writer's script: insert all keys, then overwrite a drawn subset (updates of keys already in the unsaved change set)
+		type wop struct{ i, round int }
+		var script []wop
+		for i := 0; i < nkeys; i++ {
+			script = append(script, wop{i, 0})
+		}
+		for j := gen.Uniform(rt, 10, 80, "nupdates"); j > 0; j-- {
+			script = append(script, wop{gen.Uniform(rt, 0, nkeys-1, "upd"), 1 + j})
+		}
+		// sequential reference run
+		type snap struct{ changes, deletes int }
+		ref := map[string]snap{}
+		{
+			m := mptkit.NewTrie(util.NewLevelNodeDB(util.NewMemoryNodeDB(), util.NewMemoryNodeDB(), false), version, nil)
+			ref[""] = snap{0, 0}
+			for _, o := range script {
+				if _, err := m.Insert(util.Path(keyOf(o.i)), mptkit.Val(valOf(o.i, o.round))); err != nil {
+					rt.Fatalf("HARNESS: %v", err)
+				}
+				r, c, d, _ := m.GetChanges()
+				ref[string(r)] = snap{len(c), len(d)}
+			}
+		}
+		mpt := mptkit.NewTrie(util.NewLevelNodeDB(util.NewMemoryNodeDB(), util.NewMemoryNodeDB(), false), version, nil)
+		var mu sync.Mutex
+		failure := ""
+		fail := func(f string, a ...any) {
+			mu.Lock()
+			if failure == "" {
+				failure = fmt.Sprintf(f, a...)
+			}
+			mu.Unlock()
+		}
+		done := make(chan struct{})
+		var wg sync.WaitGroup
+		var snapshots atomic.Int64
+		wg.Add(1)
+		go func() {
+			defer wg.Done()
+			defer close(done)
+			for _, o := range script {
+				if _, err := mpt.Insert(util.Path(keyOf(o.i)), mptkit.Val(valOf(o.i, o.round))); err != nil {
+					fail("Insert: %v", err)
+					return
+				}
+			}
+		}()
+		for r := 0; r < nreaders; r++ {
+			r := r
+			wg.Add(1)
+			go func() {
+				defer wg.Done()
+				defer func() {
+					if rr := recover(); rr != nil {
+						fail("reader panic: %v", rr)
+					}
+				}()
+				sink := util.NewMemoryNodeDB()
+				cancelled, cancel := context.WithCancel(context.Background())
+				cancel()
+				for n := 0; ; n++ {
+					select {
+					case <-done:
+						return
+					default:
+					}
+					if r == 0 && n%8 == 0 {
+						// a save that gives up at once; its worker goes on reading the cloned collector while the writer continues
+						_ = mpt.SaveChanges(cancelled, sink, false)
+						continue
+					}
+					root, changes, deletes, _ := mpt.GetChanges()
+					snapshots.Add(1)
+					want, ok := ref[string(root)]
+					if !ok {
+						fail("GetChanges returned root %x, which no prefix of the writer's sequence has", root)
+						return
+					}
+					if len(changes) != want.changes || len(deletes) != want.deletes {
+						fail("torn change set: root %x belongs to %d changes / %d deletes, GetChanges returned %d / %d", root, want.changes, want.deletes, len(changes), len(deletes))
+						return
+					}
+					// what was returned is the caller's snapshot: read it while the writer goes on
+					seenRoot := len(root) == 0
+					for _, c := range changes {
+						if bytes.Equal(c.New.GetHashBytes(), root) {
+							seenRoot = true
+						}
+						if c.Old != nil {
+							_ = c.Old.GetHash()
+						}
+					}
+					if !seenRoot {
+						fail("change set returned with root %x does not contain that root node", root)
+						return
+					}
+					if mpt.GetChangeCount() < 0 || len(mpt.GetDeletes()) < 0 {
+						return
+					}
+				}
+			}()
+		}
+		wg.Wait()
+		if failure != "" {
+			rt.Fatalf("%s (keys %d, readers %d)", failure, nkeys, nreaders)
+		}
+		runtime.Gosched()
+		ev.Case(fmt.Sprint(nkeys, nreaders, version, len(script)), snapshots.Load() > 50, "change-set-snapshots-under-writer")
+		ev.ExtraAdd("concurrent_change_set_snapshots", snapshots.Load())
+	})
+}
+
+// Readers that run into missing nodes while a writer works on the same trie: nothing may hang.
+func TestRaceMissingNodesWithWriter(t *testing.T) {
+	ev.Rapid(t, 25, 400)
+	rapid.Check(t, func(rt *rapid.T) {
+		full := util.NewMemoryNodeDB()
+		build := mptkit.NewTrie(full, 0, nil)
+		content := map[string][]byte{}
+		for i := 0; i < gen.Uniform(rt, 20, 60, "n"); i++ {
+			p := fmt.Sprintf("%02x%02x", (i*37)%256, (i*11)%256)
+			v := []byte{byte(i), 1}
+			if _, err := build.Insert(util.Path(p), mptkit.Val(v)); err != nil {
+				rt.Fatalf("HARNESS: %v", err)
+			}
+			content[p] = v
+		}
+		root := append([]byte(nil), build.GetRoot()...)
+		w := refmpt.WalkFrom(root, mptkit.GetterOf(full), false)
+		var leaves []string
+		for k, n := range w.Reachable {
+			if n.Type == refmpt.TLeaf {
+				leaves = append(leaves, k)
+			}
+		}
+		sort.Strings(leaves)
+		removed := map[string]bool{}
+		for i := gen.Uniform(rt, 3, 10, "nremove"); i > 0 && len(leaves) > 0; i-- {
+			removed[gen.Pick(rt, leaves, "rm")] = true
+		}
+		damaged := util.NewMemoryNodeDB()
+		_ = full.Iterate(context.Background(), func(_ context.Context, key util.Key, node util.Node) error {
+			if !removed[string(key)] {
+				_ = damaged.PutNode(append(util.Key(nil), key...), node)
+			}
+			return nil
+		})
+		dw := refmpt.WalkFrom(root, mptkit.GetterOf(damaged), false)
+		mpt := mptkit.NewTrie(util.NewLevelNodeDB(util.NewMemoryNodeDB(), damaged, false), 0, root)
+		keys := mptkit.SortedKeys(content)
+		nreaders := gen.Uniform(rt, 2, 5, "nreaders")
+		rounds := gen.Uniform(rt, 20, 120, "rounds")
+		finished := make(chan string, 1)
+		go func() {
+			var wg sync.WaitGroup
+			var mu sync.Mutex
+			failure := ""
+			stop := make(chan struct{})
+			wg.Add(1)
+			go func() {
+				defer wg.Done()
+				defer close(stop)
+				for i := 0; i < rounds; i++ {
+					// the writer works on keys of its own (inserts may fail when their path crosses a missing node)
+					_, _ = mpt.Insert(util.Path(fmt.Sprintf("ee%02x%02x", i%256, (i*3)%256)), mptkit.Val([]byte{byte(i), 2}))
+					runtime.Gosched()
+				}
+			}()
+			for r := 0; r < nreaders; r++ {
+				r := r
+				wg.Add(1)
+				go func() {
+					defer wg.Done()
+					for n := 0; ; n++ {
+						select {
+						case <-stop:
+							return
+						default:
+						}
+						p := keys[(n*7+r)%len(keys)]
+						v, err := mpt.GetNodeValueRaw(util.Path(p))
+						brokenKey := false
+						for b := range dw.BrokenAt {
+							if strings.HasPrefix(p, b) {
+								brokenKey = true
+							}
+						}
+						if brokenKey && (err == nil || errors.Is(err, util.ErrValueNotPresent)) {
+							mu.Lock()
+							failure = fmt.Sprintf("lookup %q below an absent node: %x, %v", p, v, err)
+							mu.Unlock()
+						}
+						if !brokenKey && (err != nil || !bytes.Equal(v, content[p])) {
+							mu.Lock()
+							failure = fmt.Sprintf("lookup %q = %x, %v; want %x", p, v, err, content[p])
+							mu.Unlock()
+						}
+						if n%5 == 0 {
+							mpt.GetMissingNodeKeys()
+						}
+					}
+				}()
+			}
+			wg.Wait()
+			finished <- failure
+		}()
+		select {
+		case f := <-finished:
+			if f != "" {
+				rt.Fatalf("%s", f)
+			}
+		case <-time.After(90 * time.Second):
+			// the goroutines are stuck for good (normal duration: milliseconds); shrinking would hang again and again,
+			// so report at once and end the process
+			ev.WriteReplay("TestRaceMissingNodesWithWriter", map[string]any{"what": "lookups into missing nodes concurrent with a writer did not return within 90 s: the operations hang", "readers": nreaders, "removed_leaves": len(removed), "keys": len(content)})
+			fmt.Printf("--- FAIL: TestRaceMissingNodesWithWriter: operations hang (deadlock)\n")
+			ev.Flush()
+			os.Exit(1)
+		}
+		ev.Case(fmt.Sprint(len(content), removed, nreaders, rounds), len(dw.Missing) > 0, "missing-node-readers-with-writer")
 	})
 }
